@@ -400,6 +400,8 @@ func corsJob(raw json.RawMessage) (any, error) {
 				rep("C11.origin", "acao-unlisted", q, "Access-Control-Allow-Origin: "+acao, "absent ('"+q.Origin+"' is not in the configured list verbatim)")
 			case cred != "" && !(cred == "true" && hasACAO && listed && acao == q.Origin):
 				rep("C11.credentials", "credentials-without-echo", q, "Access-Control-Allow-Credentials: "+cred+" with Access-Control-Allow-Origin: "+acao, "credentials only with an echoed, listed origin")
+			case hasACAO && preflight && q.Path == "":
+				rep("C11.preflight", "acao-on-preflight-for-unserved-method", q, "Access-Control-Allow-Origin: "+acao, "absent: the empty path is no route, nothing is served there but OPTIONS itself")
 			case hasACAO && preflight && route != nil && !contains(t.Allow(q.Path), q.ACRM):
 				rep("C11.preflight", "acao-on-preflight-for-unserved-method", q, "Access-Control-Allow-Origin: "+acao, "absent: "+q.Path+" does not serve "+q.ACRM)
 			case hasACAO && preflight && !reqHeadersOK:
